@@ -32,6 +32,9 @@ pub struct OCase {
     /// pipeline part
     pub hist: Vec<Ev>,
     pub release_on_activation: bool,
+    /// the first entry is made invalid: 0 two non-modifier keys on the input side, 1 two on the
+    /// output side, 2 none on the input side, 3 none on the output side; the parser must reject
+    pub invalid: Option<u8>,
 }
 
 fn uni_name(i: u8) -> &'static str {
@@ -42,12 +45,22 @@ fn uni_name(i: u8) -> &'static str {
     }
 }
 
-fn table_text(t: &[Ovr]) -> String {
+fn table_text(t: &[Ovr], invalid: Option<u8>) -> String {
     let mut s = String::from("(defoverrides");
-    for o in t {
+    for (i, o) in t.iter().enumerate() {
         let im: Vec<&str> = (0..8).filter(|b| o.in_mods & (1 << b) != 0).map(|b| MODS[b]).collect();
         let om: Vec<&str> = (0..8).filter(|b| o.out_mods & (1 << b) != 0).map(|b| MODS[b]).collect();
-        s.push_str(&format!("\n  ({} {}) ({} {})", im.join(" "), INS[o.in_key], om.join(" "), OUTS[o.out_key]));
+        let (mut ik, mut ok) = (INS[o.in_key].to_string(), OUTS[o.out_key].to_string());
+        if i == 0 {
+            match invalid {
+                Some(0) => ik = format!("{ik} {}", INS[(o.in_key + 1) % INS.len()]),
+                Some(1) => ok = format!("{ok} {}", OUTS[(o.out_key + 1) % OUTS.len()]),
+                Some(2) => ik = String::new(),
+                Some(3) => ok = String::new(),
+                _ => {}
+            }
+        }
+        s.push_str(&format!("\n  ({} {ik}) ({} {ok})", im.join(" "), om.join(" ")));
     }
     s.push_str(")\n");
     s
@@ -59,7 +72,7 @@ fn cfg_text(c: &OCase) -> String {
         if c.release_on_activation { " override-release-on-activation yes" } else { "" },
         keys.join(" "),
         keys.join(" "),
-        table_text(&c.table)
+        table_text(&c.table, c.invalid)
     )
 }
 
@@ -68,7 +81,7 @@ impl Case for OCase {
         json!({"config": cfg_text(self),
             "table": self.table.iter().map(|o| json!([o.in_mods, o.in_key, o.out_mods, o.out_key])).collect::<Vec<_>>(),
             "list": self.list.as_ref().map(|l| l.iter().map(|i| uni_name(*i)).collect::<Vec<_>>()),
-            "list_idx": self.list, "events": hist_to_json(&self.hist), "release_on_activation": self.release_on_activation})
+            "list_idx": self.list, "events": hist_to_json(&self.hist), "release_on_activation": self.release_on_activation, "invalid": self.invalid})
     }
     fn from_json(v: &Value) -> Option<Self> {
         Some(OCase {
@@ -87,6 +100,7 @@ impl Case for OCase {
             list: if v["list_idx"].is_null() { None } else { Some(v["list_idx"].as_array()?.iter().map(|x| x.as_u64().map(|y| y as u8)).collect::<Option<Vec<_>>>()?) },
             hist: hist_from_json(&v["events"])?,
             release_on_activation: v["release_on_activation"].as_bool().unwrap_or(false),
+            invalid: v["invalid"].as_u64().map(|x| x as u8),
         })
     }
     fn canon_hash(&self) -> u64 {
@@ -279,7 +293,7 @@ impl TypedProp for C13 {
                 },
             exhaustive: false,
             distinct_by_construction: false,
-            required_classes: vec!["pure", "pipeline", "override-applied", "shared-key", "mod-after-key", "release-on-activation"],
+            required_classes: vec!["pure", "pipeline", "override-applied", "shared-key", "mod-after-key", "release-on-activation", "invalid-entry-rejected"],
             hang_secs: 60,
         }
     }
@@ -292,14 +306,16 @@ impl TypedProp for C13 {
                 list: Some(list_at(idx % nl)),
                 hist: vec![],
                 release_on_activation: false,
+                invalid: None,
             });
         }
         Gen::Strat(0)
     }
     fn strategy(&self, _tier: Tier, _key: u32) -> BoxedStrategy<OCase> {
         let keys: Vec<u16> = MODS.iter().chain(INS.iter()).map(|n| code_of(n)).collect();
-        (table_strategy(), crate::gen::hist::consistent_history(keys, vec![0, 1, 1, 2, 3], 1..24), any::<bool>())
-            .prop_map(|(table, hist, r)| OCase {
+        (table_strategy(), crate::gen::hist::consistent_history(keys, vec![0, 1, 1, 2, 3], 1..24), any::<bool>(), prop_oneof![19 => Just(None), 1 => (0u8..4).prop_map(Some)])
+            .prop_map(|(table, hist, r, invalid)| OCase {
+                invalid: if table.is_empty() { None } else { invalid },
                 table,
                 list: None,
                 hist,
@@ -309,6 +325,22 @@ impl TypedProp for C13 {
     }
     fn judge(&self, case: &OCase) -> Verdict {
         let text = cfg_text(case);
+        if let Some(kind) = case.invalid {
+            // an entry without exactly one non-modifier key on each side is rejected, not
+            // silently cut down to something else
+            let files: rustc_hash::FxHashMap<String, String> = Default::default();
+            return match kanata_parser::cfg::new_from_str(&text, files) {
+                Err(_) => {
+                    let mut v = Verdict::pass(true);
+                    v.classes.push("invalid-entry-rejected");
+                    v
+                }
+                Ok(_) => Verdict::failed(
+                    "mismatch:override-entry-accepted",
+                    format!("{text}\nthe first entry has {} and was accepted", ["two non-modifier keys on the input side", "two non-modifier keys on the output side", "no non-modifier key on the input side", "no non-modifier key on the output side"][kind as usize % 4]),
+                ),
+            };
+        }
         match &case.list {
             Some(list) => {
                 let files: rustc_hash::FxHashMap<String, String> = Default::default();
@@ -334,7 +366,7 @@ impl TypedProp for C13 {
                         "mismatch:override-keys",
                         format!(
                             "{}active keys {:?} -> {:?}; reference allows {:?}",
-                            table_text(&case.table),
+                            table_text(&case.table, None),
                             list.iter().map(|i| uni_name(*i)).collect::<Vec<_>>(),
                             got.iter().map(|c| out_name(*c)).collect::<Vec<_>>(),
                             a.iter().chain(b.iter()).map(|s| s.iter().map(|c| out_name(*c)).collect::<Vec<_>>()).collect::<Vec<_>>()
@@ -403,7 +435,7 @@ impl TypedProp for C13 {
                     }
                     if !(a.contains(&got) || b.contains(&got)) && fail.is_none() {
                         fail = Some(Fail {
-                            sig: "mismatch:override-pipeline".into(),
+                            sig: "mismatch:override-pipeline One generated table in 20 gets a first entry without exactly one non-modifier key on one side (two, or none): the parser must reject it.".into(),
                             detail: format!(
                                 "{text}after {when}: layout holds {:?}, OS sees {:?}, reference allows {:?}",
                                 dedup.iter().map(|i| uni_name(*i)).collect::<Vec<_>>(),
